@@ -1,6 +1,6 @@
 (* C14 - Letter case and RNA/DNA spelling do not influence the alignment.
-   Statements only; proofs in ApiProofs.v. *)
-From KV Require Import Base Params Sort Weave Api ApiProofs.
+   Statements only; proofs in ApiProofs.v and DetectFloatProofs.v. *)
+From KV Require Import Base FP Params Sort Detect DetectProofs DetectFloatProofs Weave Api ApiProofs.
 Local Open Scope Z_scope.
 
 (* In every alphabet kalign_run converts to, a lower-case letter has the code of its upper-case
@@ -40,6 +40,32 @@ Theorem C14_respell_invariance : forall core bt ta aa tamb aamb,
   end.
 Proof. exact respell_invariance. Qed.
 Print Assumptions C14_respell_invariance.
+
+(* "detected as the same kind": for the two families of the property the binary64 decision itself is pinned down
+   (C13, forward error analysis), so every respelling is detected like the original.  A respelling of a nucleotide
+   set (case, T/U) is again spelled with a c g t u n only; a change of case of a protein set keeps the numbers of
+   protein-only, nucleotide and U letters. *)
+Theorem C14_nucleotide_respellings_detected_alike : forall f1 f2,
+  length f1 = 128%nat -> length f2 = 128%nat ->
+  Forall (fun c => 0 <= c < 2 ^ 31) f1 -> Forall (fun c => 0 <= c < 2 ^ 31) f2 ->
+  hist_only nuc_or_u 0 f1 -> hist_only nuc_or_u 0 f2 -> 0 < total_letters 0 f1 -> 0 < total_letters 0 f2 ->
+  detect_alphabet f1 = Some ALN_BIOTYPE_DNA /\ detect_alphabet f2 = Some ALN_BIOTYPE_DNA.
+Proof. intros f1 f2 L1 L2 C1 C2 H1 H2 T1 T2. split; apply nucleotide_detected; assumption. Qed.
+Print Assumptions C14_nucleotide_respellings_detected_alike.
+
+Theorem C14_protein_respellings_detected_alike : forall f1 f2,
+  length f1 = 128%nat -> length f2 = 128%nat ->
+  Forall (fun c => 0 <= c < 2 ^ 31) f1 -> Forall (fun c => 0 <= c < 2 ^ 31) f2 ->
+  0 < total_letters 0 f1 -> total_letters 0 f1 <= 4 * class_count only_po 0 f1 ->
+  class_count is_nuc_letter 0 f1 + class_count only_u 0 f1 + class_count only_po 0 f1 <= total_letters 0 f1 ->
+  class_count only_u 0 f1 = 0 ->
+  total_letters 0 f2 = total_letters 0 f1 -> class_count only_po 0 f2 = class_count only_po 0 f1 ->
+  class_count is_nuc_letter 0 f2 = class_count is_nuc_letter 0 f1 -> class_count only_u 0 f2 = class_count only_u 0 f1 ->
+  detect_alphabet f1 = Some ALN_BIOTYPE_PROTEIN /\ detect_alphabet f2 = Some ALN_BIOTYPE_PROTEIN.
+Proof.
+  intros f1 f2 L1 L2 C1 C2 T Q S U E1 E2 E3 E4. split; apply protein_detected; try assumption; rewrite ?E1, ?E2, ?E3, ?E4; assumption.
+Qed.
+Print Assumptions C14_protein_respellings_detected_alike.
 
 (* Non-vacuity: "acgu" is a respelling of "ACGT" *)
 Example C14_nonvacuous :
